@@ -396,6 +396,9 @@ func runC19(o *cli.Opts, run *evid.Run) {
 		}
 		// derivatives
 		nDer := o.Pick(30, 300)
+		if s.d*s.b > 500 {
+			nDer = 3 // every verify invocation on such a system loads several hundred MB of keys
+		}
 		var ders []ref.Points
 		for len(ders) < 40*nDer && len(ders) < 4000 {
 			ders = append(ders, ref.Rerandomise(s.proofs[len(ders)%len(s.proofs)].pt, delta, r))
